@@ -6,7 +6,7 @@ MODULES = ["TLVerif.Props.C10"]
 THEOREMS = ["TLVerif.Props.C10." + t for t in [
     "readTL1M_map_eq", "dictNormalize_of_ascending", "dictStore_strict", "strict_le",
     "bytes_variant_agrees_on_canonical", "bytes_variant_rewrites_equal",
-    "bytes_variant_canonical", "string_variant_canonical_on_canonical_input",
+    "bytes_variant_canonical", "string_variant_canonical_on_canonical_input", "key_order_asymm", "canonical_guard_is_strict_ascent",
     "strict_accepts_example", "canonical_example", "variants_differ_on_duplicate_key", "variants_differ_on_unsorted_keys"]]
 
 
@@ -33,7 +33,7 @@ BYTES_DICT_TL2_KEY = "bytes-dict-ReadTL2-reads-into-copy:qt_dict.qtpl BytesInter
 def run(c):
     known_lines = set()
     if MODULES:
-        c.lean(MODULES, THEOREMS, sources=["TLVerif.Codec.TL1", "TLVerif.Codec.BytesVariant", "TLVerif.Codec.BytesVariantCanon"])
+        c.lean(MODULES, THEOREMS, sources=["TLVerif.Codec.TL1", "TLVerif.Codec.BytesVariant", "TLVerif.Codec.BytesVariantCanon", "TLVerif.Codec.KeyOrder"])
     # only schemas generated with --generateByteVersions
     model, hcodec, schemas = cc.prepare(c, [s for s in cc.corpus(c) if s.bytes_wl])
     rng = c.rng
